@@ -1,7 +1,7 @@
 (* C20 -- property theorems only. *)
 From Coq Require Import List NArith Bool.
 Import ListNotations.
-Require Import Verif.Lib.Wire Verif.Lib.C20Types Verif.Gen.Facts_C20 Verif.Model.C20 Verif.Proofs.C20 Verif.Proofs.C20_commit Verif.Proofs.C20_rel Verif.Proofs.C20_wf.
+Require Import Verif.Lib.Wire Verif.Lib.C20Types Verif.Gen.Facts_C20 Verif.Model.C20 Verif.Proofs.C20 Verif.Proofs.C20_commit Verif.Proofs.C20_rel Verif.Proofs.C20_wf Verif.Proofs.C20_gen.
 Require Verif.Model.C04.
 
 Theorem C20_keys_faithful : forall s k f,
@@ -96,3 +96,95 @@ Theorem C20_remove_erases : forall ops c d s',
   forall c' d', (c', d') <> (c, d) -> lookup s' c' d' = lookup (run_state init ops) c' d'.
 Proof. exact remove_erases. Qed.
 Print Assumptions C20_remove_erases.
+
+(* ------------------------------------------------------------------------------------------------
+   The program REGENERATED from src/pyramid/registry.py and src/pyramid/config/actions.py on this run
+   (Gen/Facts_C20.v, written by harness/c20/translate.py) equals the hand-written reference model. *)
+Theorem C20_generated_add_is_model : forall s i, gen_add s i = (add s i, Ok tt).
+Proof. exact gen_add_is_model. Qed.
+Print Assumptions C20_generated_add_is_model.
+
+Theorem C20_generated_get_is_model : forall s c d, gen_get s c d = (fst (get s c d), Ok (snd (get s c d))).
+Proof. exact gen_get_is_model. Qed.
+Print Assumptions C20_generated_get_is_model.
+
+Theorem C20_generated_get_category_is_model : forall s c, gen_get_category s c = (s, get_category_rows s c).
+Proof. exact gen_get_category_is_model. Qed.
+Print Assumptions C20_generated_get_category_is_model.
+
+Theorem C20_generated_categories_is_model : forall s, gen_categories s = (s, Ok (categories s)).
+Proof. exact gen_categories_is_model. Qed.
+Print Assumptions C20_generated_categories_is_model.
+
+Theorem C20_generated_remove_is_model : forall s c d,
+  KeysOwn s -> gen_remove s c d = (fst (remove s c d), unit_res (snd (remove s c d))).
+Proof. exact gen_remove_is_model. Qed.
+Print Assumptions C20_generated_remove_is_model.
+
+Theorem C20_generated_intrs_by_pairs_is_model : forall s ps, gen_intrs_by_pairs s ps = (s, intrs_by_pairs s ps).
+Proof. exact gen_intrs_by_pairs_is_model. Qed.
+Print Assumptions C20_generated_intrs_by_pairs_is_model.
+
+Theorem C20_generated_relate_is_model : forall s ps,
+  gen_relate s ps = match relate s ps with Ok s' => (s', Ok tt) | Err e => (s, Err e) end.
+Proof. exact gen_relate_is_model. Qed.
+Print Assumptions C20_generated_relate_is_model.
+
+Theorem C20_generated_unrelate_is_model : forall s ps,
+  gen_unrelate s ps = match unrelate s ps with Ok s' => (s', Ok tt) | Err e => (s, Err e) end.
+Proof. exact gen_unrelate_is_model. Qed.
+Print Assumptions C20_generated_unrelate_is_model.
+
+Theorem C20_generated_related_is_model : forall s i, gen_related s i = (s, related s i).
+Proof. exact gen_related_is_model. Qed.
+Print Assumptions C20_generated_related_is_model.
+
+Theorem C20_generated_introspectable_relate_is_model : forall i rs c d,
+  gen_intr_relate i rs c d = rs ++ [Rel c d] /\ gen_intr_unrelate i rs c d = rs ++ [Unrel c d].
+Proof. exact gen_intr_relate_both. Qed.
+Print Assumptions C20_generated_introspectable_relate_is_model.
+
+Theorem C20_generated_register_is_model : forall s i rs,
+  gen_register s i rs = (fst (register s i rs), unit_res (snd (register s i rs))).
+Proof. exact gen_register_is_model. Qed.
+Print Assumptions C20_generated_register_is_model.
+
+Theorem C20_generated_registration_step_is_model : forall s l,
+  res_of (gen_exec_register true s l) = register_all s l /\ gen_exec_register false s l = (s, Ok tt).
+Proof. exact gen_exec_register_both. Qed.
+Print Assumptions C20_generated_registration_step_is_model.
+
+Theorem C20_generated_action_filter_is_model : forall b s executed,
+  commit_register b s executed =
+  res_of (gen_exec_register true s (concat (map (gen_action_filter b) executed))).
+Proof. exact gen_action_filter_is_model. Qed.
+Print Assumptions C20_generated_action_filter_is_model.
+
+(* on every operation sequence the regenerated program answers exactly as the reference model *)
+Theorem C20_generated_run_is_model : forall ops, gen_run_ops init ops = run_ops init ops.
+Proof. exact gen_run_ops_is_model. Qed.
+Print Assumptions C20_generated_run_is_model.
+
+(* property theorems restated about the regenerated program *)
+Theorem C20_only_executed_are_recorded_generated : forall executed s' c d,
+  res_of (gen_exec_register true init (concat (map (gen_action_filter true) executed))) = Ok s' ->
+  (lookup s' c d <> None <->
+   exists i rs, In (i, rs) (concat executed) /\ icat i = c /\ idisc i = d).
+Proof. exact only_executed_are_recorded_generated. Qed.
+Print Assumptions C20_only_executed_are_recorded_generated.
+
+Theorem C20_disabled_records_nothing_generated : forall s executed,
+  res_of (gen_exec_register true s (concat (map (gen_action_filter false) executed))) = Ok s.
+Proof. exact disabled_records_nothing_generated. Qed.
+Print Assumptions C20_disabled_records_nothing_generated.
+
+Theorem C20_get_after_add_generated : forall s i s1 r1,
+  gen_add s i = (s1, r1) -> snd (gen_get s1 (icat i) (idisc i)) = Ok (Some i).
+Proof. exact get_after_add_generated. Qed.
+Print Assumptions C20_get_after_add_generated.
+
+Theorem C20_remove_erases_generated : forall ops c d s',
+  gen_remove (run_state init ops) c d = (s', Ok tt) ->
+  snd (gen_get s' c d) = Ok None.
+Proof. exact remove_erases_generated. Qed.
+Print Assumptions C20_remove_erases_generated.
